@@ -1,9 +1,370 @@
-// Contract harnesses for ntp-proto/src/algorithm/kalman/mod.rs (child module: sees private items).
-#![allow(unused_imports)]
+// Contract harnesses for ntp-proto/src/algorithm/kalman/mod.rs (C01, C02, C03, C04 link, C37).
+// Compiled in the transformed copy (HashMap -> VecMap, see /verif/transforms.json).
+#![allow(unused_imports, dead_code)]
 use super::*;
+use crate::config::StepThreshold;
+use crate::verif_common::harness;
+use std::sync::atomic::{AtomicBool, AtomicI64, AtomicU64, AtomicU8, Ordering::Relaxed};
+
+// ---------------------------------------------------------------- recording clock (ghost state)
+static STEPS: AtomicU8 = AtomicU8::new(0);
+static STEP_RAW: AtomicI64 = AtomicI64::new(0);
+static FREQS: AtomicU8 = AtomicU8::new(0);
+static FREQ_BITS: AtomicU64 = AtomicU64::new(0);
+static LEAPS: AtomicU8 = AtomicU8::new(0);
+static LEAP_VAL: AtomicU8 = AtomicU8::new(0);
+static ERR_UPDATES: AtomicU8 = AtomicU8::new(0);
+static EXITED: AtomicBool = AtomicBool::new(false);
+
+pub(super) fn raw(d: NtpDuration) -> i64 {
+    i64::from_be_bytes((NtpTimestamp::from_bits([0; 8]) + d).to_bits())
+}
+fn dur(v: i64) -> NtpDuration {
+    NtpDuration::from_bits(v.to_be_bytes())
+}
+fn leap_code(l: NtpLeapIndicator) -> u8 {
+    match l {
+        NtpLeapIndicator::NoWarning => 0,
+        NtpLeapIndicator::Leap61 => 1,
+        NtpLeapIndicator::Leap59 => 2,
+        NtpLeapIndicator::Unknown => 3,
+        NtpLeapIndicator::Unsynchronized => 4,
+    }
+}
+
+#[derive(Clone)]
+struct RecClock;
+impl NtpClock for RecClock {
+    type Error = std::io::Error;
+    fn now(&self) -> Result<NtpTimestamp, Self::Error> {
+        Ok(NtpTimestamp::from_bits(kani::any()))
+    }
+    fn set_frequency(&self, freq: f64) -> Result<NtpTimestamp, Self::Error> {
+        FREQS.store(FREQS.load(Relaxed).saturating_add(1), Relaxed);
+        FREQ_BITS.store(freq.to_bits(), Relaxed);
+        Ok(NtpTimestamp::from_bits(kani::any()))
+    }
+    fn get_frequency(&self) -> Result<f64, Self::Error> {
+        Ok(kani::any())
+    }
+    fn step_clock(&self, offset: NtpDuration) -> Result<NtpTimestamp, Self::Error> {
+        STEPS.store(STEPS.load(Relaxed).saturating_add(1), Relaxed);
+        STEP_RAW.store(raw(offset), Relaxed);
+        Ok(NtpTimestamp::from_bits(kani::any()))
+    }
+    fn disable_ntp_algorithm(&self) -> Result<(), Self::Error> {
+        Ok(())
+    }
+    fn error_estimate_update(&self, _e: NtpDuration, _m: NtpDuration) -> Result<(), Self::Error> {
+        ERR_UPDATES.store(ERR_UPDATES.load(Relaxed).saturating_add(1), Relaxed);
+        Ok(())
+    }
+    fn status_update(&self, leap: NtpLeapIndicator) -> Result<(), Self::Error> {
+        LEAPS.store(LEAPS.load(Relaxed).saturating_add(1), Relaxed);
+        LEAP_VAL.store(leap_code(leap), Relaxed);
+        Ok(())
+    }
+}
+
+/// contract of the exit path (assumption A4: exit does not return): the daemon stops *instead of*
+/// stepping, i.e. no step has been issued when exit is reached.
+fn exit_stub(_code: i32) -> ! {
+    assert!(STEPS.load(Relaxed) == 0, "exit is reached only before any step");
+    EXITED.store(true, Relaxed);
+    kani::assume(false);
+    unreachable!()
+}
+
+// NtpDuration::from_seconds as an uninterpreted (memoised) function: callers in this unit are
+// checked against "deterministic function of its argument" only; its own contract (sign,
+// saturation, integer part) is discharged under C32.
+static FS_SET: AtomicBool = AtomicBool::new(false);
+static FS_ARG: AtomicU64 = AtomicU64::new(0);
+static FS_RES: AtomicI64 = AtomicI64::new(0);
+fn from_seconds_uf(s: f64) -> NtpDuration {
+    if FS_SET.load(Relaxed) && FS_ARG.load(Relaxed) == s.to_bits() {
+        return dur(FS_RES.load(Relaxed));
+    }
+    // any other argument: arbitrary result (over-approximation)
+    dur(kani::any())
+}
+/// fix the (arbitrary) value of from_seconds at the one argument the unit cares about
+fn uf_register(s: f64) {
+    FS_ARG.store(s.to_bits(), Relaxed);
+    FS_RES.store(kani::any(), Relaxed);
+    FS_SET.store(true, Relaxed);
+}
+
+fn any_opt_nonneg() -> Option<NtpDuration> {
+    if kani::any() {
+        let v: i64 = kani::any();
+        kani::assume(v >= 0);
+        Some(dur(v))
+    } else {
+        None
+    }
+}
+/// thresholds as C39's postcondition guarantees them: every present bound is >= 0
+fn any_thr() -> StepThreshold {
+    StepThreshold { forward: any_opt_nonneg(), backward: any_opt_nonneg() }
+}
+/// mathematical reading of "within the threshold" (strict on both sides), in i128
+fn spec_within(t: &StepThreshold, x: i64) -> bool {
+    let f = match t.forward {
+        None => true,
+        Some(v) => (x as i128) < raw(v) as i128,
+    };
+    let b = match t.backward {
+        None => true,
+        Some(v) => (x as i128) > -(raw(v) as i128),
+    };
+    f && b
+}
+
+fn any_controller() -> KalmanClockController<RecClock> {
+    let sc = SynchronizationConfig {
+        minimum_agreeing_sources: kani::any(),
+        single_step_panic_threshold: any_thr(),
+        startup_step_panic_threshold: any_thr(),
+        accumulated_step_panic_threshold: any_opt_nonneg(),
+        local_stratum: kani::any(),
+        reference_id: Default::default(),
+        warn_on_jump: kani::any(),
+    };
+    let acc: i64 = kani::any();
+    kani::assume(acc >= 0);
+    KalmanClockController {
+        sources: HashMap::new(),
+        clock: RecClock,
+        synchronization_config: sc,
+        algo_config: AlgorithmConfig::default(),
+        freq_offset: kani::any(),
+        timedata: TimeSnapshot {
+            accumulated_steps: dur(acc),
+            accumulated_steps_threshold: sc.accumulated_step_panic_threshold,
+            ..TimeSnapshot::default()
+        },
+        desired_freq: kani::any(),
+        in_startup: kani::any(),
+    }
+}
+
+// ---------------------------------------------------------------- C01
+
+/// StepThreshold::is_within: requires bounds >= 0 (C39); ensures the mathematical predicate.
+#[kani::proof]
+fn c01_p_is_within_contract() {
+    let t = any_thr();
+    let x: i64 = kani::any();
+    assert!(t.is_within(dur(x)) == spec_within(&t, x));
+    kani::cover!(t.backward.is_some() && x == i64::MIN, "extreme reachable");
+}
+
+harness! {
+    #[kani::stub(std::process::exit, exit_stub)]
+    #[kani::stub(crate::time_types::NtpDuration::from_seconds, from_seconds_uf)]
+    #[kani::unwind(3)]
+    fn c01_p_check_offset_steer_contract() {
+        let mut c = any_controller();
+        let change: f64 = kani::any();
+        kani::assume(change.is_finite());
+        uf_register(change);
+        let before_startup = c.in_startup;
+        let before_acc = raw(c.timedata.accumulated_steps);
+        let sc = c.synchronization_config;
+        c.check_offset_steer(change);
+        // returned normally => every threshold that applies is respected
+        let x = raw(NtpDuration::from_seconds(change));
+        assert!(c.in_startup == before_startup);
+        if before_startup {
+            assert!(spec_within(&sc.startup_step_panic_threshold, x));
+            assert!(raw(c.timedata.accumulated_steps) == before_acc);
+        } else {
+            assert!(spec_within(&sc.single_step_panic_threshold, x));
+            let abs = if x == i64::MIN { i64::MAX } else { x.abs() };
+            assert!(raw(c.timedata.accumulated_steps) == before_acc.saturating_add(abs));
+            if let Some(a) = sc.accumulated_step_panic_threshold {
+                assert!(raw(c.timedata.accumulated_steps) <= raw(a));
+            }
+        }
+        kani::cover!(!before_startup && x < 0, "post-startup backward step reachable");
+        kani::cover!(before_startup, "startup reachable");
+    }
+}
+
+harness! {
+    #[kani::stub(std::process::exit, exit_stub)]
+    #[kani::stub(crate::time_types::NtpDuration::from_seconds, from_seconds_uf)]
+    #[kani::unwind(3)]
+    fn c01_p_steer_offset_steps_within_thresholds() {
+        let mut c = any_controller();
+        let st: f64 = kani::any();
+        kani::assume(st >= 0.0 && st.is_finite());
+        c.algo_config.step_threshold = st;
+        let change: f64 = kani::any();
+        kani::assume(change.is_finite());
+        let freq_delta: f64 = kani::any();
+        kani::assume(freq_delta.is_finite() && c.freq_offset.is_finite() && c.desired_freq.is_finite());
+        kani::assume(change.abs() > st); // the jump arm (the slew arm is c02_p_slew_*)
+        uf_register(change);
+        let before_startup = c.in_startup;
+        let before_acc = raw(c.timedata.accumulated_steps);
+        let sc = c.synchronization_config;
+        let upd = c.steer_offset(change, freq_delta);
+        // normal return from the jump arm: exactly one step, equal to the requested change,
+        // inside every applicable threshold; accumulated steps account for it
+        assert!(STEPS.load(Relaxed) == 1);
+        let x = STEP_RAW.load(Relaxed);
+        assert!(x == raw(NtpDuration::from_seconds(change)));
+        if before_startup {
+            assert!(spec_within(&sc.startup_step_panic_threshold, x));
+        } else {
+            assert!(spec_within(&sc.single_step_panic_threshold, x));
+            let abs = if x == i64::MIN { i64::MAX } else { x.abs() };
+            assert!(raw(c.timedata.accumulated_steps) == before_acc.saturating_add(abs));
+            if let Some(a) = sc.accumulated_step_panic_threshold {
+                assert!(raw(c.timedata.accumulated_steps) <= raw(a));
+            }
+        }
+        assert!(c.in_startup == before_startup);
+        assert!(matches!(upd.source_message, Some(KalmanControllerMessage { inner: KalmanControllerMessageInner::Step { steer } }) if steer == change));
+        kani::cover!(!before_startup, "post-startup step reachable");
+        kani::cover!(before_startup, "startup step reachable");
+    }
+}
+
+harness! {
+    #[kani::stub(std::process::exit, exit_stub)]
+    #[kani::unwind(3)]
+    fn c01_p_small_offsets_never_step() {
+        let mut c = any_controller();
+        let st: f64 = kani::any();
+        kani::assume(st >= 0.0 && st.is_finite());
+        c.algo_config.step_threshold = st;
+        let change: f64 = kani::any();
+        kani::assume(change.is_finite() && change.abs() >= 1e-12 && change.abs() <= st);
+        kani::assume(st <= 1e6);
+        let freq_delta: f64 = kani::any();
+        kani::assume(freq_delta.is_finite() && c.freq_offset.is_finite() && c.desired_freq.is_finite());
+        let acc = raw(c.timedata.accumulated_steps);
+        let _ = c.steer_offset(change, freq_delta);
+        assert!(STEPS.load(Relaxed) == 0);
+        assert!(raw(c.timedata.accumulated_steps) == acc);
+        kani::cover!(true, "slew arm reachable");
+    }
+}
+
+/// canary: claims steps are also allowed beyond the forward threshold -- must be refuted
+harness! {
+    #[kani::stub(std::process::exit, exit_stub)]
+    #[kani::unwind(3)]
+    fn c01_canary_threshold_ignored() {
+        let mut c = any_controller();
+        let change: f64 = kani::any();
+        kani::assume(change.is_finite());
+        c.in_startup = false;
+        c.check_offset_steer(change);
+        assert!(c.synchronization_config.single_step_panic_threshold.forward.is_none());
+    }
+}
+
+// ---------------------------------------------------------------- C02
+
+/// requires: configured maximum finite >= 0, change and current offset finite (C06 is the unchecked
+/// source of that); ensures: the frequency handed to the clock is within +-max and is what is stored.
+harness! {
+    #[kani::unwind(3)]
+    fn c02_p_steer_frequency_clamped() {
+        let mut c = any_controller();
+        let max: f64 = kani::any();
+        kani::assume(max.is_finite() && max >= 0.0);
+        c.algo_config.maximum_frequency_steer = max;
+        let change: f64 = kani::any();
+        kani::assume(change.is_finite());
+        kani::assume(c.freq_offset.is_finite()); // whatever the kernel reported, in or out of range
+        let _ = c.steer_frequency(change);
+        assert!(FREQS.load(Relaxed) == 1);
+        let f = f64::from_bits(FREQ_BITS.load(Relaxed));
+        assert!(f >= -max && f <= max);
+        assert!(f.to_bits() == c.freq_offset.to_bits());
+        assert!(STEPS.load(Relaxed) == 0);
+        kani::cover!(f == max && max > 0.0, "clamping reachable");
+    }
+}
+
+harness! {
+    #[kani::unwind(3)]
+    fn c02_p_change_desired_frequency_clamped() {
+        let mut c = any_controller();
+        let max: f64 = kani::any();
+        kani::assume(max.is_finite() && max >= 0.0);
+        c.algo_config.maximum_frequency_steer = max;
+        let new_freq: f64 = kani::any();
+        let delta: f64 = kani::any();
+        kani::assume(new_freq.is_finite() && delta.is_finite() && c.desired_freq.is_finite() && c.freq_offset.is_finite());
+        kani::assume(new_freq.abs() <= 1.0 && delta.abs() <= 1.0 && c.desired_freq.abs() <= 1.0);
+        let _ = c.change_desired_frequency(new_freq, delta);
+        let f = f64::from_bits(FREQ_BITS.load(Relaxed));
+        assert!(FREQS.load(Relaxed) == 1 && f >= -max && f <= max);
+        assert!(c.desired_freq.to_bits() == new_freq.to_bits());
+        kani::cover!(true, "reachable");
+    }
+}
+
+/// slew arm: requires 1e-12 <= |change| <= step_threshold <= 1e6, 1e-9 <= slew_max, 1e-3 <= slew_min_duration <= 1e6
+/// (configuration ranges; stated in evidence); ensures |extra frequency| <= slew_max, applied frequency
+/// within +-max, no panic in Duration::from_secs_f64, and a next_update is scheduled.
+harness! {
+    #[kani::stub(std::process::exit, exit_stub)]
+    #[kani::unwind(3)]
+    fn c02_p_slew_frequency_bounded() {
+        let mut c = any_controller();
+        let max: f64 = kani::any();
+        kani::assume(max.is_finite() && max >= 0.0);
+        c.algo_config.maximum_frequency_steer = max;
+        let slew_max: f64 = kani::any();
+        let min_dur: f64 = kani::any();
+        let st: f64 = kani::any();
+        kani::assume(slew_max >= 1e-9 && slew_max <= 1.0);
+        kani::assume(min_dur >= 1e-3 && min_dur <= 1e6);
+        kani::assume(st >= 0.0 && st <= 1e6);
+        c.algo_config.slew_maximum_frequency_offset = slew_max;
+        c.algo_config.slew_minimum_duration = min_dur;
+        c.algo_config.step_threshold = st;
+        let change: f64 = kani::any();
+        kani::assume(change.is_finite() && change.abs() >= 1e-12 && change.abs() <= st);
+        let freq_delta: f64 = kani::any();
+        kani::assume(freq_delta.abs() <= 1.0 && c.freq_offset.is_finite());
+        c.desired_freq = 0.0; // update_clock only starts a slew when no slew is active
+        let upd = c.steer_offset(change, freq_delta);
+        assert!(c.desired_freq.abs() <= slew_max);
+        assert!(c.desired_freq != 0.0 && (c.desired_freq < 0.0) == (change > 0.0));
+        let f = f64::from_bits(FREQ_BITS.load(Relaxed));
+        assert!(FREQS.load(Relaxed) == 1 && f >= -max && f <= max);
+        assert!(upd.next_update.is_some());
+        assert!(STEPS.load(Relaxed) == 0);
+        kani::cover!(c.desired_freq.abs() == slew_max, "maximum slew reachable");
+    }
+}
+
+harness! {
+    #[kani::unwind(3)]
+    fn c02_canary_frequency_unclamped() {
+        let mut c = any_controller();
+        let max: f64 = kani::any();
+        kani::assume(max.is_finite() && max >= 0.0);
+        c.algo_config.maximum_frequency_steer = max;
+        let change: f64 = kani::any();
+        kani::assume(change.is_finite() && c.freq_offset.is_finite());
+        let before = c.freq_offset;
+        let _ = c.steer_frequency(change);
+        assert!(c.freq_offset == (1.0 + before) * (1.0 + change) - 1.0);
+    }
+}
 
 #[cfg(all(kani, test))]
 mod replay {
     use super::*;
     include!(concat!(env!("VERIF_REPLAY_DIR"), "/ntp_proto__algorithm__kalman__mod.rs"));
 }
+
